@@ -21,7 +21,21 @@ RULE = ("correspondence: inventories (format v1 and v2) serialised from generate
         "source / base URL taken by inventory_cli and fetch_inventory under a fake urlopen (corr: the same against the extracted "
         "cli_filter / cli_fetch / fetch_inventory models). non-trivial = the load yields at least one entry or an "
         "exception and the partition has at least two chunks, or (helpers) the input is non-empty")
-TRUSTED = ["coq/InvLoad/{Reader,Load}.v are hand transcriptions of InventoryFileReader/load/_load_v1/_load_v2/from_sphinx/to_sphinx",
+TRUSTED = ["InventoryFileReader.read_buffer/readline/readlines/read_compressed_chunks/read_compressed_lines, load/_load_v1/_load_v2, from_sphinx/to_sphinx: "
+           "translated from the source statement by statement on every run (gen/c18_src.py -> coq/Gen/InventorySrc.v) and proved equal to the "
+           "hand-written models coq/InvLoad/{Reader,Load}.v (C18_inventory_src_refines); trusted there: the walker and its DOMAIN MAPPING "
+           "(coq/InvLoad/SrcPrims.v): self.attr = v -> record update; b.find(c) -> zfind (Python int, -1); b[:z], b[z:] -> zslice_to/zslice_from "
+           "(Python slice semantics); x[k:] for a literal k -> skipn; x[:-1] -> removelast; ==/!= on str/bytes -> str_eqb; 'c' in s -> mem_N; "
+           "s in t -> contains; truthiness of str/bytes -> non-empty; x.decode() -> the decode oracle (raises UnicodeDecodeError); "
+           "stream.read(_BUFSIZE) -> next chunk of the chunk list; zlib.decompressobj()/decompress/flush -> dinit/dstep+derr/dflush; "
+           "re.match(<literal>, s) -> match_line s, `if not m: continue` + m.groups() -> match on the option; s.rstrip() -> rstrip; "
+           "s.split(None, 2) into three names -> split_ws 2 (else ValueError); s.split(':', 1) into two names -> split_at (guarded in the source "
+           "by `':' not in s: continue`); dicts -> association lists: d.setdefault(k, {}) / d[k1][k2] = v / k in d / d.get(k, {}) -> al_setdefault / "
+           "al_update+al_set / al_mem / al_get_or_empty, d[k] in read position -> d.get(k, {}) (KeyError not modelled; guarded by a membership "
+           "test); TypedDict literals -> records; x = None on a string variable / `t or '-'` -> option; while -> Fixpoint with fuel "
+           "(readline: len(stream)+1, readlines: pending bytes+1, read_compressed_chunks: len(stream)+1, inner loop of read_compressed_lines: "
+           "len(buf)); for over d.items() / a generator -> structural Fixpoint; a generator = (items yielded, optional exception)",
+           "coq/InvLoad/Cli.v (fetch_inventory / inventory_cli glue) is a hand transcription, tied by correspondence",
            "coq/InvLoad/SphinxInv.v is a hand transcription of sphinx.util.inventory.InventoryFile.loads/_loads_v1/_loads_v2 (Sphinx 8.2.3, modelled external)",
            "zlib (decompressobj/decompress), bytes.decode, re: oracles with the stated O_ hypotheses, each exercised on the real library by the correspondence run",
            "the chunk-limited stream wrapper of the harness behaves like a file object whose read(n) returns between 1 and n bytes until the end and b'' afterwards"]
@@ -1288,7 +1302,10 @@ def replay(ctx, data):
     return 0 if ok else 1
 
 
-LEVEL_TEXT = ("Proof (Coq, 25 theorems, all closed under the global context): for every list of read() results, load() equals load() "
+LEVEL_TEXT = ("Proof (Coq, 30 theorems, all closed under the global context; since round 3 the reader methods, the loaders and the "
+              "converters are regenerated from inventory.py on every run and proved equal to the models, so the _src theorems "
+              "C18_chunking_independent_src / C18_agrees_with_sphinx_src / C18_sphinx_roundtrip_src / C18_load_terminates_src hold for "
+              "what the code says now): for every list of read() results, load() equals load() "
               "of the same bytes in one read - header lines, carried-over buffer, compressed body - except that for a stream zlib "
               "itself rejects every chunking fails with zlib.error or UnicodeDecodeError (C18_chunking_independent, "
               "C18_any_two_chunkings, witness C18_chunking_exception_class_refuted); readline/load never exhaust their fuel "
